@@ -106,3 +106,35 @@ Proof. intros bk st r. destruct r; reflexivity. Qed.
 Theorem take_vec_decision : forall bk st r,
   take_vec_gen (is_alloc r) (can_unwrap bk st r) = if can_unwrap bk st r then VTakeBuffer else VCopyThenDrop.
 Proof. intros bk st r. unfold take_vec_gen. destruct r as [d|s off n|b off n]; cbn [is_alloc andb]; [reflexivity|reflexivity|]. destruct (can_unwrap bk st (RAlloc b off n)); reflexivity. Qed.
+
+(** mutable access in place: exactly the machine's [grants_mut] *)
+Theorem grants_mut_gen_is_grants_mut : forall bk st r,
+  grants_mut_gen (match r with RInline _ => TInline | RBorrowed _ _ _ => TBorrowed | RAlloc _ _ _ => TAllocated end)
+                 (match r with RAlloc b _ _ => match get_b st b with Some blk => is_unique_c bk (cnt blk) | None => false end | _ => false end)
+  = grants_mut bk st r.
+Proof. intros bk st r. destruct r; reflexivity. Qed.
+
+(** with_capacity: the model's threshold *)
+Theorem with_capacity_gen_spec : forall n, with_capacity_gen n = if n <=? INLINE_CAP then WInlineEmpty else WHeap n.
+Proof. reflexivity. Qed.
+
+(** repeat: the branches of the machine's [ORepeat] (clone | panic beyond isize::MAX | inline | fresh heap value) *)
+Theorem repeat_gen_spec : forall n k, n <= IMAX ->
+  repeat_gen n k =
+    if (n =? 0) || (k =? 1) then RClone
+    else if IMAX <? n * k then RPanic
+    else if n * k <=? INLINE_CAP then RInlineCopies (n * k) else RVecRepeat (n * k).
+Proof.
+  intros n k Hn. unfold repeat_gen, mul_chk. change INLINE_CAPACITY with INLINE_CAP.
+  destruct ((n =? 0) || (k =? 1)); [reflexivity|].
+  destruct (n * k <? W) eqn:E.
+  - destruct (IMAX <? n * k) eqn:E2.
+    + assert (L : (n * k <=? INLINE_CAP) = false) by (apply N.leb_gt; apply N.ltb_lt in E2; unfold INLINE_CAP, IMAX in *; lia). rewrite L. reflexivity.
+    + reflexivity.
+  - assert (L : (IMAX <? n * k) = true) by (apply N.ltb_lt; apply N.ltb_ge in E; unfold W, IMAX in *; lia). rewrite L. reflexivity.
+Qed.
+
+Theorem clear_is_truncate_0 : forall a n, clear_gen a n = truncate_gen a n 0.
+Proof. reflexivity. Qed.
+Theorem push_is_push_slice_1 : forall a i u n, push_gen a i u n = push_slice_gen a i u n 1.
+Proof. reflexivity. Qed.
